@@ -219,15 +219,20 @@ static void add_attr(const char *attr_name, enum xcm_attr_type type,
 	return;
 
     struct ctl_proto_get_all_attr_cfm *cfm = data;
+
+    /* attributes the protocol cannot carry are left out of the reply */
+    if (cfm->attrs_len >= CTL_PROTO_MAX_ATTRS ||
+	len > CTL_ATTR_VALUE_MAX ||
+	strlen(attr_name) >= XCM_ATTR_NAME_MAX)
+	return;
+
     struct ctl_proto_attr *attr = &cfm->attrs[cfm->attrs_len];
 
     cfm->attrs_len++;
-    ut_assert(cfm->attrs_len < CTL_PROTO_MAX_ATTRS);
 
     strcpy(attr->name, attr_name);
     attr->value_type = type;
 
-    ut_assert(attr->value_len < sizeof(attr->any_value));
     memcpy(attr->any_value, value, len);
     attr->value_len = len;
 }
